@@ -83,7 +83,7 @@ theorem RO_cmp (F : Facts) : ∀ f : Nat,
               repeat' (first | apply RO_ite | apply RO_pure)
               exact ihl _ _
 
-theorem RO_insertBy {less : Val → Val → EM Bool} (hl : ∀ a b, RO (less a b)) (x : Val) : ∀ l, RO (insertBy less x l)
+theorem RO_insertBy {α : Type} {less : α → α → EM Bool} (hl : ∀ a b, RO (less a b)) (x : α) : ∀ l, RO (insertBy less x l)
   | [] => by simp only [insertBy]; exact RO_pure _
   | y :: ys => by
     simp only [insertBy]
@@ -92,13 +92,26 @@ theorem RO_insertBy {less : Val → Val → EM Bool} (hl : ∀ a b, RO (less a b
       · simp only [Bool.false_eq_true, if_false]; exact RO_bind (RO_insertBy hl x ys) fun _ => RO_pure _
       · simp only [if_true]; exact RO_pure _
 
-theorem RO_sortBy {less : Val → Val → EM Bool} (hl : ∀ a b, RO (less a b)) : ∀ l, RO (sortBy less l)
+theorem RO_sortBy {α : Type} {less : α → α → EM Bool} (hl : ∀ a b, RO (less a b)) : ∀ l, RO (sortBy less l)
   | [] => by simp only [sortBy]; exact RO_pure _
   | x :: xs => by simp only [sortBy]; exact RO_bind (RO_sortBy hl xs) fun s => RO_insertBy hl x s
 
-theorem RO_stableSort {less : Val → Val → EM Bool} (hl : ∀ a b, RO (less a b)) (l : List Val) : RO (stableSort less l) := by
+theorem RO_stableSort {α : Type} {less : α → α → EM Bool} (hl : ∀ a b, RO (less a b)) (l : List α) : RO (stableSort less l) := by
   unfold stableSort
   exact RO_sortBy hl _
+
+/-- the sorting step of `sorted` never writes (it compares keys with `<` or `>` only) -/
+theorem RO_sortCore (F' : Facts) (rev kf : Bool) (keyed : List (Val × Val)) : RO (sortCore F' rev kf keyed) := by
+  unfold sortCore
+  split
+  · exact RO_fail _
+  · have hop : (if (rev && !F'.sortedRevAfter) = true then BinOp.gt else BinOp.lt) = BinOp.lt ∨
+        (if (rev && !F'.sortedRevAfter) = true then BinOp.gt else BinOp.lt) = BinOp.gt := by
+      split
+      · exact Or.inr rfl
+      · exact Or.inl rfl
+    exact RO_bind (RO_stableSort (fun a b => RO_bind ((RO_cmp F' 64).1 _ _ _ hop) fun _ => RO_pure _) keyed)
+      fun _ => RO_pure _
 
 theorem range_three : List.range 3 = [0, 1, 2] := by decide
 
@@ -106,7 +119,7 @@ theorem sorted_core (F' : Facts) (h : F'.sortedInPlace = false) (fz : Bool)
     (hfz : fz = false ∨ F'.frozenOK "sorted" = true) (a o l c : Nat) :
     callBuiltin F' "sorted" [(none, .list fz a o l c)] = (do
       let xs ← elems a o l
-      let sorted ← stableSort (fun a b => do pure (truthy (← cmpOp F' 64 .lt a b))) xs
+      let sorted ← sortCore F' false false (xs.map fun x => (x, x))
       mkList sorted) := by
   rcases hfz with rfl | hok
   · simp [callBuiltin, builtinSig, bindNative, bindNative.go, bindNative.fill, validate, hasTy, asListFor, h, range_three]
@@ -141,8 +154,7 @@ theorem sorted_copies (F' : Facts) (h : F'.sortedInPlace = false) (fz : Bool)
   have := (elems_run h1).1; subst this
   rw [run_bind_ok] at h2
   obtain ⟨ys, s2, h3, h4⟩ := h2
-  have hro : RO (stableSort (fun a b => do pure (truthy (← cmpOp F' 64 .lt a b))) xs) :=
-    RO_stableSort (fun a b => RO_bind ((RO_cmp F' 64).1 _ _ _ (Or.inl rfl)) fun _ => RO_pure _) xs
+  have hro : RO (sortCore F' false false (xs.map fun x => (x, x))) := RO_sortCore F' false false _
   have := hro _ _ _ h3; subst this
   exact ⟨ys, mkList_run h4⟩
 
